@@ -6,6 +6,7 @@
   no template is `.unknown` and is left to the correspondence check.
 -/
 import FinProto.Prim
+import FinProto.Checksum
 namespace FinProto
 
 inductive PrimDef
@@ -89,5 +90,48 @@ theorem readVstrs_is (e : Endian) : semReadVstrs e e = fun cw pw => readVstrs cw
 
 /-- a template instance with MIXED byte orders (the defect repaired in commit aef9d6d) is a different function -/
 theorem writeNums_mixed_differs : semWriteNums .le .be 2 2 [0x0102] ≠ writeNums 2 2 .le [0x0102] := by decide
+
+
+/-! ### the checksum services' `Calc` bodies, template-translated from codec/checksum.go -/
+
+inductive CksDef
+  | crc16Reflected (init poly : Nat)   -- crc := init; per byte: crc ^= b; 8 x (if crc&1 != 0 then (crc>>1)^poly else crc>>1)
+  | crc32IEEE                          -- return crc32.ChecksumIEEE(data.Bytes())
+  | sumMasked (mask : Nat)             -- uint32: checksum = (checksum + b) & mask
+  | sumThenMod (m : Nat)               -- uint32: checksum += b (wrapping); return int32(checksum % m)
+  | unknown
+  deriving DecidableEq, Repr
+
+def pinnedCksDefs : List CksDef := [.crc16Reflected 0xFFFF 0xA001, .crc32IEEE, .sumMasked 0xFF, .sumThenMod 256]
+
+def cksAgree : List CksDef → List CksDef → Bool
+  | [], [] => true
+  | g :: gs, p :: ps => (g == p || g == .unknown) && cksAgree gs ps
+  | _, _ => false
+
+/-- meaning of the loop templates over machine integers, parametrised by the extracted constants -/
+def semCrc16Bit (poly : UInt16) (crc : UInt16) : UInt16 :=
+  if crc &&& 0x0001 != 0 then (crc >>> 1) ^^^ poly else crc >>> 1
+def semCrc16Byte (poly : UInt16) (crc : UInt16) (b : UInt8) : UInt16 :=
+  let c := crc ^^^ b.toUInt16
+  semCrc16Bit poly (semCrc16Bit poly (semCrc16Bit poly (semCrc16Bit poly (semCrc16Bit poly (semCrc16Bit poly
+    (semCrc16Bit poly (semCrc16Bit poly c)))))))
+def semCrc16 (init poly : Nat) (bs : Bytes) : UInt16 := bs.foldl (semCrc16Byte (UInt16.ofNat poly)) (UInt16.ofNat init)
+def semSumMasked (mask : Nat) (bs : Bytes) : UInt32 := bs.foldl (fun acc b => (acc + b.toUInt32) &&& UInt32.ofNat mask) 0
+def semSumThenMod (m : Nat) (bs : Bytes) : UInt32 := (bs.foldl (fun acc b => acc + b.toUInt32) 0) % UInt32.ofNat m
+
+/-- with the pinned constants the templates are the model's checksum functions (whose published definitions are proved
+    in Props/ChecksumProofs.lean) -/
+theorem crc16Bit_template (c : UInt16) : semCrc16Bit (UInt16.ofNat 0xA001) c = crc16Bit c := rfl
+theorem crc16_template_is : semCrc16 0xFFFF 0xA001 = crc16Go := by
+  funext bs
+  have hb : semCrc16Byte (UInt16.ofNat 0xA001) = crc16Byte := by
+    funext c b; simp only [semCrc16Byte, crc16Byte, crc16Bit_template]
+  simp only [semCrc16, crc16Go, hb]
+  rfl
+theorem sse_template_is : semSumMasked 0xFF = sseGo := by
+  funext bs; rfl
+theorem szse_template_is : semSumThenMod 256 = szseGo := by
+  funext bs; rfl
 
 end FinProto
